@@ -166,6 +166,13 @@ class Ctx:
             return pt.Len(self.expr(e[1]))
         if k == "itob":
             return pt.Itob(self.expr(e[1]))
+        if k == "substr":
+            x, a, b = self.expr(e[2]), self.expr(e[3]), self.expr(e[4])
+            if e[1] == "substring":
+                return pt.Substring(x, a, b)
+            if e[1] == "extract":
+                return pt.Extract(x, a, b)
+            return pt.Suffix(x, a)
         if k == "btoi":
             return pt.Btoi(self.expr(e[1]))
         if k == "not":
@@ -366,6 +373,19 @@ class Ctx:
             return pt.InnerTxnBuilder.ExecuteMethodCall(app_id=pt.Int(1), method_signature=s[1], args=[self.arg(a) for a in s[2]])
         if k == "pragma":
             return pt.Pragma(self.stmt(s[2]), compiler_version=s[1])
+        if k == "itxn_arr":
+            arr = {
+                "accounts": (pt.TxnField.accounts, pt.Txn.accounts),
+                "apps": (pt.TxnField.applications, pt.Txn.applications),
+                "args": (pt.TxnField.application_args, pt.Txn.application_args),
+                "assets": (pt.TxnField.assets, pt.Txn.assets),
+            }[s[1]]
+            return pt.Seq(
+                pt.InnerTxnBuilder.Begin(),
+                pt.InnerTxnBuilder.SetFields({pt.TxnField.type_enum: pt.TxnType.ApplicationCall, pt.TxnField.fee: self.expr(s[2])}),
+                pt.InnerTxnBuilder.SetField(arr[0], arr[1]),
+                pt.InnerTxnBuilder.Submit(),
+            )
         if k == "itxn":
             return pt.Seq(
                 pt.InnerTxnBuilder.Begin(),
